@@ -6,7 +6,7 @@ pub mod kmer_checks;
 
 #[cfg(kani)]
 mod kmer_harness {
-    use crate::kmer_checks::{involution_checks, slide_checks};
+    use crate::kmer_checks::{involution_checks, restart_checks, slide_checks};
     use ragc_core::kmer::{Kmer, KmerMode};
 
     fn slide<const K: usize, const N: usize>() {
@@ -26,6 +26,27 @@ mod kmer_harness {
         let code = involution_checks::<K>(w);
         assert!(code == 0, "k-mer involution violated");
         kani::cover!(code == 0, "checks completed");
+    }
+
+    fn restart<const K: usize, const N: usize>() {
+        let prefix: [u8; N] = kani::any();
+        let w: [u8; K] = kani::any();
+        let p: usize = kani::any();
+        kani::assume(p <= N);
+        let mut i = 0;
+        while i < N {
+            kani::assume(prefix[i] < 4);
+            i += 1;
+        }
+        let mut i = 0;
+        while i < K {
+            kani::assume(w[i] < 4);
+            i += 1;
+        }
+        let code = restart_checks::<K, N>(&prefix, p, &w);
+        assert!(code == 0, "k-mer restart relation violated");
+        kani::cover!(code == 0 && p == N, "checks completed after a full window");
+        kani::cover!(code == 0 && p == 1, "checks completed after one symbol");
     }
 
     /// Vacuity twin: must FAIL (reachability witness for the slide harness shape).
@@ -48,10 +69,13 @@ mod kmer_harness {
     }
 
     macro_rules! kmer_family {
-        ($($k:literal $n:literal $slide:ident $inv:ident $u:literal;)*) => {$(
+        ($($k:literal $n:literal $slide:ident $inv:ident $rs:ident $u:literal;)*) => {$(
             #[kani::proof]
             #[kani::unwind($u)]
             fn $slide() { slide::<$k, $n>(); }
+            #[kani::proof]
+            #[kani::unwind($u)]
+            fn $rs() { restart::<$k, $n>(); }
             #[kani::proof]
             #[kani::unwind($u)]
             fn $inv() { involution::<$k>(); }
@@ -59,38 +83,38 @@ mod kmer_harness {
     }
     // k, n = k+2, names, unwind = n+2
     kmer_family! {
-        1 3 kmer_slide_k01 kmer_inv_k01 5;
-        2 4 kmer_slide_k02 kmer_inv_k02 6;
-        3 5 kmer_slide_k03 kmer_inv_k03 7;
-        4 6 kmer_slide_k04 kmer_inv_k04 8;
-        5 7 kmer_slide_k05 kmer_inv_k05 9;
-        6 8 kmer_slide_k06 kmer_inv_k06 10;
-        7 9 kmer_slide_k07 kmer_inv_k07 11;
-        8 10 kmer_slide_k08 kmer_inv_k08 12;
-        9 11 kmer_slide_k09 kmer_inv_k09 13;
-        10 12 kmer_slide_k10 kmer_inv_k10 14;
-        11 13 kmer_slide_k11 kmer_inv_k11 15;
-        12 14 kmer_slide_k12 kmer_inv_k12 16;
-        13 15 kmer_slide_k13 kmer_inv_k13 17;
-        14 16 kmer_slide_k14 kmer_inv_k14 18;
-        15 17 kmer_slide_k15 kmer_inv_k15 19;
-        16 18 kmer_slide_k16 kmer_inv_k16 20;
-        17 19 kmer_slide_k17 kmer_inv_k17 21;
-        18 20 kmer_slide_k18 kmer_inv_k18 22;
-        19 21 kmer_slide_k19 kmer_inv_k19 23;
-        20 22 kmer_slide_k20 kmer_inv_k20 24;
-        21 23 kmer_slide_k21 kmer_inv_k21 25;
-        22 24 kmer_slide_k22 kmer_inv_k22 26;
-        23 25 kmer_slide_k23 kmer_inv_k23 27;
-        24 26 kmer_slide_k24 kmer_inv_k24 28;
-        25 27 kmer_slide_k25 kmer_inv_k25 29;
-        26 28 kmer_slide_k26 kmer_inv_k26 30;
-        27 29 kmer_slide_k27 kmer_inv_k27 31;
-        28 30 kmer_slide_k28 kmer_inv_k28 32;
-        29 31 kmer_slide_k29 kmer_inv_k29 33;
-        30 32 kmer_slide_k30 kmer_inv_k30 34;
-        31 33 kmer_slide_k31 kmer_inv_k31 35;
-        32 34 kmer_slide_k32 kmer_inv_k32 36;
+        1 3 kmer_slide_k01 kmer_inv_k01 kmer_restart_k01 5;
+        2 4 kmer_slide_k02 kmer_inv_k02 kmer_restart_k02 6;
+        3 5 kmer_slide_k03 kmer_inv_k03 kmer_restart_k03 7;
+        4 6 kmer_slide_k04 kmer_inv_k04 kmer_restart_k04 8;
+        5 7 kmer_slide_k05 kmer_inv_k05 kmer_restart_k05 9;
+        6 8 kmer_slide_k06 kmer_inv_k06 kmer_restart_k06 10;
+        7 9 kmer_slide_k07 kmer_inv_k07 kmer_restart_k07 11;
+        8 10 kmer_slide_k08 kmer_inv_k08 kmer_restart_k08 12;
+        9 11 kmer_slide_k09 kmer_inv_k09 kmer_restart_k09 13;
+        10 12 kmer_slide_k10 kmer_inv_k10 kmer_restart_k10 14;
+        11 13 kmer_slide_k11 kmer_inv_k11 kmer_restart_k11 15;
+        12 14 kmer_slide_k12 kmer_inv_k12 kmer_restart_k12 16;
+        13 15 kmer_slide_k13 kmer_inv_k13 kmer_restart_k13 17;
+        14 16 kmer_slide_k14 kmer_inv_k14 kmer_restart_k14 18;
+        15 17 kmer_slide_k15 kmer_inv_k15 kmer_restart_k15 19;
+        16 18 kmer_slide_k16 kmer_inv_k16 kmer_restart_k16 20;
+        17 19 kmer_slide_k17 kmer_inv_k17 kmer_restart_k17 21;
+        18 20 kmer_slide_k18 kmer_inv_k18 kmer_restart_k18 22;
+        19 21 kmer_slide_k19 kmer_inv_k19 kmer_restart_k19 23;
+        20 22 kmer_slide_k20 kmer_inv_k20 kmer_restart_k20 24;
+        21 23 kmer_slide_k21 kmer_inv_k21 kmer_restart_k21 25;
+        22 24 kmer_slide_k22 kmer_inv_k22 kmer_restart_k22 26;
+        23 25 kmer_slide_k23 kmer_inv_k23 kmer_restart_k23 27;
+        24 26 kmer_slide_k24 kmer_inv_k24 kmer_restart_k24 28;
+        25 27 kmer_slide_k25 kmer_inv_k25 kmer_restart_k25 29;
+        26 28 kmer_slide_k26 kmer_inv_k26 kmer_restart_k26 30;
+        27 29 kmer_slide_k27 kmer_inv_k27 kmer_restart_k27 31;
+        28 30 kmer_slide_k28 kmer_inv_k28 kmer_restart_k28 32;
+        29 31 kmer_slide_k29 kmer_inv_k29 kmer_restart_k29 33;
+        30 32 kmer_slide_k30 kmer_inv_k30 kmer_restart_k30 34;
+        31 33 kmer_slide_k31 kmer_inv_k31 kmer_restart_k31 35;
+        32 34 kmer_slide_k32 kmer_inv_k32 kmer_restart_k32 36;
     }
 }
 
